@@ -130,8 +130,11 @@ func (s *Scope) Scope(name string, opts ...ScopeOption) *Scope {
 	// child copies the parent's graph nodes.
 	for _, node := range s.gh.nodes {
 		child.gh.nodes = append(child.gh.nodes, node)
-		if ctrNode, ok := node.Wrapped.(*constructorNode); ok {
-			ctrNode.CopyOrder(s, child)
+		switch w := node.Wrapped.(type) {
+		case *constructorNode:
+			w.CopyOrder(s, child)
+		case *paramGroupedSlice:
+			w.orders[child] = w.orders[s]
 		}
 	}
 
